@@ -25,13 +25,13 @@ pub fn entries() -> Vec<Entry> {
         ("rng::randombytes_buf(32)", || dryoc::rng::randombytes_buf(32)),
         ("rng::randombytes_buf(8)", || dryoc::rng::randombytes_buf(8)),
         ("rng::copy_randombytes", || {
-            let mut b = vec![0u8; 32];
+            let mut b = vec![0xC3u8; 32];
             dryoc::rng::copy_randombytes(&mut b);
             b
         }),
         ("crypto_secretbox_keygen", || crypto_secretbox::crypto_secretbox_keygen().to_vec()),
         ("crypto_secretbox_keygen_inplace", || {
-            let mut k = [0u8; 32];
+            let mut k = [0xC3u8; 32];
             crypto_secretbox::crypto_secretbox_keygen_inplace(&mut k);
             k.to_vec()
         }),
@@ -40,7 +40,7 @@ pub fn entries() -> Vec<Entry> {
             [pk, sk].concat()
         }),
         ("crypto_box_keypair_inplace", || {
-            let (mut pk, mut sk) = ([0u8; 32], [0u8; 32]);
+            let (mut pk, mut sk) = ([0xC3u8; 32], [0xC3u8; 32]);
             crypto_box::crypto_box_keypair_inplace(&mut pk, &mut sk);
             [pk, sk].concat()
         }),
@@ -63,13 +63,13 @@ pub fn entries() -> Vec<Entry> {
         ("crypto_generichash_keygen", || crypto_generichash::crypto_generichash_keygen().to_vec()),
         ("crypto_shorthash_keygen", || crypto_shorthash::crypto_shorthash_keygen().to_vec()),
         ("crypto_secretstream_keygen", || {
-            let mut k = [0u8; 32];
+            let mut k = [0xC3u8; 32];
             ss::crypto_secretstream_xchacha20poly1305_keygen(&mut k);
             k.to_vec()
         }),
         ("crypto_box_seal(ephemeral pk)", || {
             let pk = sodium::scalarmult_base(&[7u8; 32]);
-            let mut c = vec![0u8; 48 + 3];
+            let mut c = vec![0xC3u8; 48 + 3];
             crypto_box::crypto_box_seal(&mut c, b"abc", &pk).unwrap();
             c[..32].to_vec()
         }),
@@ -84,7 +84,7 @@ pub fn entries() -> Vec<Entry> {
         }),
         ("secretstream init_push(header)", || {
             let mut st = ss::State::new();
-            let mut h = [0u8; 24];
+            let mut h = [0xC3u8; 24];
             ss::crypto_secretstream_xchacha20poly1305_init_push(&mut st, &mut h, &[3u8; 32]);
             h.to_vec()
         }),
